@@ -548,3 +548,18 @@ func (w *World) valueReceiverField(fa *ssa.FieldAddr) ssa.Value {
 	}
 	return stores[0].Val
 }
+
+
+// incrOf: v is `x + 1` or `1 + x` where x is a load of owner.name.
+func incrOf(v ssa.Value, owner, name string) bool {
+	add, ok := v.(*ssa.BinOp)
+	if !ok || add.Op != token.ADD {
+		return false
+	}
+	for _, pr := range [][2]ssa.Value{{add.X, add.Y}, {add.Y, add.X}} {
+		if k, isK := constInt(pr[1]); isK && k == 1 && isLoad(Val{V: pr[0]}, owner, name) {
+			return true
+		}
+	}
+	return false
+}
